@@ -269,7 +269,17 @@ Definition refund_check (step : nat) (t : track) (prev cur : obs) (e : ste) (sin
   | _, _ => []
   end.
 
-Definition mon_C12_step (step : nat) (o : val) (prev cur : obs) (t : track) : list val :=
+(* creation times are tracked by the monitor itself (block time at which a (chain, id) first appears): whether a
+   transfer is past the outgoing-transfer timeout must not depend on what the implementation stored later *)
+Definition cr_find (cr : list (bytes * N * Z)) (e : ste) : option (bytes * N * Z) :=
+  find (fun x : bytes * N * Z => beqb (fst (fst x)) (s_chain e) && N.eqb (snd (fst x)) (s_id e)) cr.
+Definition created_of (cr : list (bytes * N * Z)) (e : ste) : Z :=
+  match cr_find cr e with Some x => snd x | None => s_created e end.
+Definition note_created (time : Z) (cur : obs) (cr : list (bytes * N * Z)) : list (bytes * N * Z) :=
+  fold_left (fun acc e => match cr_find acc e with Some _ => acc | None => (s_chain e, s_id e, time / 1000) :: acc end)
+            (all_entries cur) cr.
+
+Definition mon_C12_step (step : nat) (o : val) (prev cur : obs) (t : track) (cr : list (bytes * N * Z)) : list val :=
   let kind := op_kind o in
   if kind =? 2 then
     if ob_code cur =? 0 then
@@ -285,7 +295,7 @@ Definition mon_C12_step (step : nat) (o : val) (prev cur : obs) (t : track) : li
       (* a failed cancel changes nothing *)
       if (Nat.eqb (length (ob_pool prev)) (length (ob_pool cur))) then [] else [viol k_c12_notremoved step []]
   else if kind =? 6 then
-    let exp e := s_created e * 1000 + tr_timeout t <? tr_time t in
+    let exp e := created_of cr e * 1000 + tr_timeout t <? tr_time t in
     let gone := filter (fun e => negb (in_entries e (all_entries cur))) (ob_pool prev) in
     (* unbatched entries leave in EndBlocker only by expiry *)
     flat_map (fun e => if exp e then [] else [viol k_c12_early step [VB (s_chain e); vNat (s_id e)]]) gone
@@ -316,11 +326,13 @@ Definition mon_C12_step (step : nat) (o : val) (prev cur : obs) (t : track) : li
 
 Definition mon_C12 (c impl : val) : val :=
   let timeout := vI (vnth 5 (vnth 0 c)) in
-  VL (mon_fold (fun step o prev cur (t : track) =>
+  VL (mon_fold (fun step o prev cur (tc : track * list (bytes * N * Z)) =>
+                  let (t, cr) := tc in
                   let t1 := if (op_kind o =? 7) || (op_kind o =? 5) then track_step o prev cur t else t in
-                  let r := mon_C12_step step o prev cur t1 in
-                  (r, if (op_kind o =? 7) || (op_kind o =? 5) then t1 else track_step o prev cur t1))
-               0 (vL (vnth 2 c)) (vL impl) empty_obs (track0 timeout)).
+                  let r := mon_C12_step step o prev cur t1 cr in
+                  (r, (if (op_kind o =? 7) || (op_kind o =? 5) then t1 else track_step o prev cur t1,
+                       note_created (tr_time t1) cur cr)))
+               0 (vL (vnth 2 c)) (vL impl) empty_obs (track0 timeout, [])).
 
 (* ---------- C13 ---------- *)
 Definition k_c13_alive := str [67;49;51;47;119;105;116;104;100;114;97;119;110;45;119;104;105;108;101;45;101;120;101;99;117;116;97;98;108;101]. (* C13/withdrawn-while-executable *)
@@ -364,6 +376,22 @@ Definition mon_C13_step (step : nat) (o : val) (prev cur : obs) (t : track) : li
 
 Definition mon_C13 (c impl : val) : val :=
   VL (mon_fold (fun step o prev cur (t : track) => (mon_C13_step step o prev cur t, track_step o prev cur t))
+               0 (vL (vnth 2 c)) (vL impl) empty_obs (track0 (vI (vnth 5 (vnth 0 c))))).
+
+(* ---------- C08 (hub side) ---------- *)
+(* A batch for an external contract stays available to its signers and relayers until its timeout height has been
+   OBSERVED on that chain: the contract accepts it up to then (block.number < timeout), so a hub that withdraws it
+   earlier and refunds or re-batches its transfers is out of step with the contract. *)
+Definition k_c08_withdrawn := str [67;48;56;47;99;111;110;102;105;114;109;101;100;45;98;97;116;99;104;45;119;105;116;104;100;114;97;119;110;45;98;101;102;111;114;101;45;105;116;115;45;116;105;109;101;111;117;116]. (* C08/confirmed-batch-withdrawn-before-its-timeout *)
+Definition mon_C08_hub (c impl : val) : val :=
+  VL (mon_fold (fun step o prev cur (t : track) =>
+                  let gone := filter (fun b => negb (existsb (batch_same b) (ob_batches cur))) (ob_batches prev) in
+                  ((if op_kind o =? 5 then
+                      flat_map (fun b => if beqb (b_chain b) b_minter then []
+                                         else if N.ltb (b_timeout b) (ctr prev 5 (b_chain b)) then []
+                                         else [viol k_c08_withdrawn step [VB (b_chain b); VB (b_ext b); vNat (b_nonce b); vNat (b_timeout b); vNat (ctr prev 5 (b_chain b))]])
+                               gone
+                    else []), track_step o prev cur t))
                0 (vL (vnth 2 c)) (vL impl) empty_obs (track0 (vI (vnth 5 (vnth 0 c))))).
 
 (* ---------- C11 ---------- *)
